@@ -470,7 +470,10 @@ FREE = [1.1, 0.7, 2.3, 1 / 3, 0.9, 1.7]
 HIT_POOL = [("T1TS",), ("PT_FPPS_like",), ("Condensation", "AMP-binding", "PP-binding"), ("AMP-binding", "PP-binding"),
             ("PKS_AT", "PKS_KS"), ("APE_KS1",), ("hr-t2pks-ksa", "ketoacyl-synt"), ("botH",), ("strepbact",),
             ("phosphonates-like",), ("Trp_halogenase",), ("DUF3328",), ("t2ks", "t2clf"), ("ksIII",), ("glycocin",),
-            ("micKC",), ("T1TS", "PT_FPPS_like"), ()]
+            ("micKC",), ("T1TS", "PT_FPPS_like"), (),
+            # a weak hit that loses against a stronger profile of its equivalence group, which only ANOTHER rule uses
+            ("PKS_AT", "?PKS_KS", "t2ks"), ("PKS_AT", "?PKS_KS", "t2ks", "t2clf"), ("?APE_KS1", "ksIII"),
+            ("Condensation", "?AMP-binding", "PP-binding", "A-OX")]
 FIRING = ["terpene", "terpene-precursor", "NRPS", "NRPS-like", "T1PKS", "arylpolyene", "HR-T2PKS", "bottromycin",
           "RiPP-like", "phosphonate-like", "halogenated", "fungal-RiPP-like", "T2PKS", "PKS-like", "glycocin",
           "lanthipeptide-class-iii"]
@@ -519,7 +522,10 @@ class RulesetEnv:
                             [r for rules in self.files for r in rules]
         self.superiors = {r.name: list(r.superiors) for r in parsed}
         self.profiles = {r.name: set(r.conditions.profiles) for r in parsed}
-        self.pool = [p for p in HIT_POOL if all(x in self.signatures for x in p)]
+        self.pool = [p for p in HIT_POOL if all(x.lstrip("?") in self.signatures for x in p)]
+        # the equivalence groups read from the shipped file as text
+        self.full_groups = [set(line.strip().split(",")) for line in open(hmm_detection.EQUIVALENCE_GROUPS, encoding="utf-8")
+                            if line.strip()]
         self.firing = [n for n in FIRING if n in self.name_id]
 
     def fresh_parse(self):
@@ -629,15 +635,33 @@ def gen_hit_record(rng, env):
     return pos + 60000, genes, hits
 
 
-def detect_real(env, length, genes, hits, ruleset):
-    """ detect_protoclusters_and_signatures with the given (real) ruleset; the HMMer search is replaced by canned hits """
-    from unittest.mock import patch
-    from antismash.common.hmm_rule_parser.structures import HMMerHit
+class CannedHSP:  # pylint: disable=too-few-public-methods
+    """ what find_hmmer_hits reads of an hmmsearch HSP """
+    def __init__(self, profile, gene, bitscore):
+        self.query_id, self.hit_id = profile, gene
+        self.hit_start, self.hit_end, self.query_start, self.query_end = 0, 100, 0, 100
+        self.bitscore, self.evalue = bitscore, 1e-30
 
-    def canned(_record, _signatures, _database, _groups):
-        return {name: [HMMerHit(name, prof, 0, 100, 10, 1e-30, 300.) for prof in profs] for name, profs in hits.items()}
+
+class CannedQueryResult:  # pylint: disable=too-few-public-methods
+    def __init__(self, profile, hsps):
+        self.accession, self.hsps = profile, hsps
+
+
+def detect_real(env, length, genes, hits, ruleset):
+    """ detect_protoclusters_and_signatures with the given (real) ruleset; only the external HMMer run is replaced by
+        canned output, so the signature cutoffs and the competition of equivalent profiles (filter_results with the
+        ruleset's own equivalence groups) are part of what runs.  A profile written "?name" is a WEAK hit (half the
+        score) on the same stretch of the gene: it survives only if no stronger profile of its group hits the gene """
+    from unittest.mock import patch
+    by_profile = {}
+    for name, profs in hits.items():
+        for prof in profs:
+            weak = prof.startswith("?")
+            by_profile.setdefault(prof.lstrip("?"), []).append(CannedHSP(prof.lstrip("?"), name, 2500. if weak else 5000.))
+    canned = [CannedQueryResult(prof, hsps) for prof, hsps in by_profile.items()]
     record = detect_util.make_record(length, False, gene_locations(genes))
-    with patch.object(env.cp, "find_hmmer_hits", side_effect=canned):
+    with patch.object(env.cp, "run_hmmsearch", return_value=canned):
         result = env.cp.detect_protoclusters_and_signatures(record, ruleset)
     parts = detect_util.loc_parts
     return sorted((p.product, tuple(parts(p.core_location)), tuple(parts(p.location))) for p in result.protoclusters)
@@ -647,7 +671,7 @@ def selection_case(env, length, genes, hits, ruleset, solo_cache):
     """ the clusters of every rule of the ruleset run ALONE (the same rule object in a ruleset of its own) and the flat
         case for the Coq removal of the clusters covered by a superior's cluster -> (flat | None, clusters, names) """
     from antismash.common.hmm_rule_parser.test.helpers import create_ruleset
-    hit_profiles = {p for profs in hits.values() for p in profs} | set(ruleset.dynamic_profiles)
+    hit_profiles = {p.lstrip("?") for profs in hits.values() for p in profs} | set(ruleset.dynamic_profiles)
     rules = list(ruleset.rules)
     index = {rule.name: i for i, rule in enumerate(rules)}
     clusters = []
@@ -657,8 +681,8 @@ def selection_case(env, length, genes, hits, ruleset, solo_cache):
         key = (rule.name, rule.cutoff, rule.neighbourhood)
         if key not in solo_cache:
             solo = create_ruleset([rule], hmm_profiles=ruleset.hmm_profiles, dynamic_profiles=ruleset.dynamic_profiles,
-                                  equivalence_groups=ruleset.get_equivalence_groups(),
-                                  categories=ruleset.valid_categories)
+                                  equivalence_groups=env.full_groups,    # as the shipped file lists them, not as the
+                                  categories=ruleset.valid_categories)   # ruleset under test reports them
             solo_cache[key] = detect_real(env, length, genes, hits, solo)
         clusters.extend(solo_cache[key])
     flat = [PROP, 2, len(rules)]
@@ -804,6 +828,37 @@ def ruleset_histories(chk, rng, quick):
                 solo_meta.append(dict(info, call=at, clusters_of_rules_run_alone=clusters, full_run=found, names=names))
                 chk.note_case(flat, len(clusters) > 0)
                 chk.count("selection_detection_runs")
+    # (4) directed: a ruleset limited to ONE rule against that rule alone in a ruleset built here with the equivalence
+    # groups of the shipped file; the record holds, far apart, every gene of the pool with a weak hit that loses against a
+    # stronger profile of its group - a profile that only rules OUTSIDE the selection use
+    weak_genes = [p for p in env.pool if any(x.startswith("?") for x in p)] + [("PKS_AT", "PKS_KS"), ("APE_KS1",),
+                                                                                ("Condensation", "AMP-binding", "PP-binding")]
+    genes = [(f"g{i}", 1000 + i * 150000, 4000 + i * 150000, 1) for i in range(len(weak_genes))]
+    hits = {f"g{i}": profs for i, profs in enumerate(weak_genes)}
+    length = len(weak_genes) * 150000 + 60000
+    solo_cache = {}
+    for name in [n for n in ("T1PKS", "NRPS", "NRPS-like", "arylpolyene", "T2PKS", "PKS-like") if n in env.name_id]:
+        for taxon in ("bacteria", "fungi"):
+            req = {"strictness": "loose", "names": [name], "cats": [], "taxon": taxon, "mults": None}
+            env.hd._RULESETS.clear()  # pylint: disable=protected-access
+            try:
+                ruleset = env.hd.get_ruleset(env.options(req))
+                found = detect_real(env, length, genes, hits, ruleset)
+                _, alone, _ = selection_case(env, length, genes, hits, ruleset, solo_cache)
+            except Exception as exc:  # pylint: disable=broad-except
+                chk.violation("broken-correspondence", f"detection limited to rule {name} raised {type(exc).__name__}: {exc}",
+                              {"theorem_or_correspondence": "detect_protoclusters_and_signatures", "input": req})
+                continue
+            chk.count("selection_directed_single_rule_runs")
+            chk.evaluations += 1
+            if sorted(found) != sorted(alone):
+                chk.violation("counterexample", f"the protoclusters of rule {name} depend on which other rules are in the ruleset: "
+                              f"limited to this rule by get_ruleset {sorted(found)}, the rule alone with the shipped equivalence "
+                              f"groups {sorted(alone)}",
+                              {"theorem_or_correspondence": "C07 rule independence / get_ruleset + find_hmmer_hits (filter_results)",
+                               "input": {"request": req, "record": {"length": length, "genes": genes,
+                                                                     "hits": {g: list(p) for g, p in hits.items()}}},
+                               "limited_run": found, "rule_alone": alone})
     # every ruleset of every earlier history must still be what it was when handed out
     for history, handed in kept_alive:
         for req, ruleset in zip(history, handed):
